@@ -87,15 +87,21 @@ def execute(job):
     a2, perm = structures.rigid(a, rng)
     rec = clsrun.classify_record(a2, {})
     # the same structure translated so that the slab continues through the periodic boundary along its normal (and laterally),
-    # wrapped into the cell, then rotated and permuted again: class and outliers (in the original numbering) must not change
+    # wrapped into the cell or left outside it, then rotated and permuted again: class and outliers (in the original numbering)
+    # must not change
     variants = []
     for t in range(N_VARIANTS[_TIER[0]] if desc["kind"] == "slab" else 1):
         b = a.copy()
         fz = float(rng.uniform(0.25, 0.75)) if t % 3 != 2 else float(rng.uniform(0, 1))
         shift = fz * b.cell[2] + float(rng.uniform(0, 1)) * b.cell[0] + float(rng.uniform(0, 1)) * b.cell[1]
         b.translate(shift)
-        b.wrap()
+        if t % 2 == 0:
+            b.wrap()
         b2, pm = structures.rigid(b, rng, translate=False)
+        if t % 2 == 1:
+            # every second variant is NOT wrapped (atoms stored up to a cell away from the cell) and carries a FixAtoms
+            # constraint, tags, charges, momenta
+            b2 = structures.decorate(b2, force=True)
         v = {"fz": fz, "cls": "", "outliers": [], "error": ""}
         try:
             from matid.classification.classifier import Classifier
